@@ -347,6 +347,57 @@ func (b *bb) scenarioJoin() {
 	b.leakProbe(fmt.Sprintf("termination of timed %s %s", ver, kind))
 	b.note("join", fmt.Sprintf("timed %s %s size=%d nocopy=%v timeout=%v", kind, ver, size, nocopy, timeout), before)
 
+	// (2b) trickle: the input stays open and delivers single elements more often than the ticker
+	// period but far more slowly than JoinSize per Timeout: every element must still leave within
+	// the bound (C10), i.e. the ticker keeps firing while input arrives
+	{
+		// the three disciplines take turns, one per repetition
+		switch b.cycle("trickle", 3) {
+		case 0:
+			kind, ver = "unite", "v2"
+		case 1:
+			kind, ver = "join", "v2"
+		default:
+			kind, ver = "join", "v1"
+		}
+		before := b.fails()
+		tmo, inc := 40*time.Millisecond, uint(25)
+		if ver == "v1" {
+			tmo = 100 * time.Millisecond
+		}
+		gap := tmo / time.Duration(100/inc) / 3
+		slackBase := 300 * time.Millisecond
+		total := tmo + tmo/time.Duration(100/inc) + slackBase + 400*time.Millisecond
+		var tr [][]int
+		for i := 0; i < int(total/gap); i++ {
+			tr = append(tr, []int{i + 1})
+		}
+		cn := startCanary()
+		outs, _, accepted, ok := b.runBatch(kind, ver, 100000, nocopy, tmo, inc, inCap, tr, func(int) { time.Sleep(gap) })
+		lag := cn.lag()
+		if ok {
+			bound := tmo + tmo/time.Duration(100/inc) + slackBase + 3*lag
+			idx := 0
+		outer:
+			for _, o := range outs {
+				for range o.data {
+					if idx < len(accepted) {
+						if res := o.at.Sub(accepted[idx]); res > bound {
+							b.fail("C10 trickle %s %s: element %d stayed %v inside the discipline while the input kept trickling every %v, bound %v (Timeout %v, inaccuracy %d%%)", kind, ver, idx, res, gap, bound, tmo, inc)
+							break outer
+						}
+					}
+					idx++
+				}
+			}
+			if idx != len(tr) {
+				b.fail("C03 trickle %s %s: %d of %d elements were delivered", kind, ver, idx, len(tr))
+			}
+		}
+		b.leakProbe(fmt.Sprintf("termination of trickling %s %s", ver, kind))
+		b.note("join", fmt.Sprintf("trickle %s %s nocopy=%v timeout=%v", kind, ver, nocopy, tmo), before)
+	}
+
 	// (3) v1: Stop while the consumer does not read / holds a slice
 	for attempt := 0; attempt < 4; attempt++ {
 		nocopy := nocopy || r.Intn(2) == 0
